@@ -59,11 +59,6 @@ class SyncGraphNodeExecutor:
             _, mode, error_handling = map_config
             # Use original param names for map_over (inner graph expects these)
             original_params = node._original_map_params()
-            # Values that are merely the inner graph's own bindings stay with the
-            # inner graph: bound values are shared on purpose and bypass clone.
-            # (Not the mapped parameters: the list to map over may itself be bound.)
-            inner_bound = node.graph.inputs.bound
-            inner_inputs = {k: v for k, v in inner_inputs.items() if k in original_params or not (k in inner_bound and inner_bound[k] is v)}
             results = self.runner.map(
                 node.graph,
                 inner_inputs,
